@@ -14,7 +14,7 @@ def evaluate(progs, timeout=3000, dev=()):
     """returns {id: {"src":..., "out":...}} computed by TLC from specs/lang/GlyphCore.tla"""
     work = vf.scratch("verif-lang-")
     path = os.path.join(work, "progs.ndjson")
-    vf.write_ndjson(path, [{"id": p["id"], "body": p["body"], "vars": p["vars"]} for p in progs])
+    vf.write_ndjson(path, [{"id": p["id"], "body": p["body"], "vars": p["vars"], "funcs": p.get("funcs", [])} for p in progs])
     cases = {}
 
     def sink(c):
@@ -38,7 +38,7 @@ def observe(progs, cases, timeout=3000, hang=False, race=False, env=None):
         kind = c["out"]["kind"] + ("-" + c["out"]["class"] if c["out"].get("class") == "limit" else "")
         if c["out"]["kind"] == "unrep":
             kind = "error-limit"     # outcome unknown to the model: may not terminate either
-        items.append({"id": p["id"], "src": c["src"], "vars": p["vars"], "tags": p["tags"], "kind": kind})
+        items.append({"id": p["id"], "src": c["src"], "pre": c.get("pre", ""), "vars": p["vars"], "tags": p["tags"], "kind": kind})
     vf.write_ndjson(path, items)
     out = path + ".out"
     hout = path + ".hang"
@@ -99,6 +99,11 @@ def compare(spec, o):
             return "want value %s, got %s (%s)" % (show(spec["v"]), kind, o.get("msg", "")[:140])
         if norm(o["v"]) != norm(spec["v"]):
             return "want %s, got %s" % (show(spec["v"]), show(o["v"]))
+        got_st = 200
+        if str(o.get("msg", "")).startswith("status "):
+            got_st = int(o["msg"].split()[1])
+        if spec.get("st", 200) != got_st:
+            return "want status %s, got status %s" % (spec.get("st", 200), got_st)
         return None
     # spec says error
     if kind == "value":
